@@ -279,11 +279,14 @@ func ChangeJSON(uri string, version int, changes []refclient.Change) []byte {
 
 // Change sends a didChange, decoded exactly as protocol.ServerHandler decodes it.
 func (h *Harness) Change(uri string, version int, changes []refclient.Change) error {
+	// as cmd/hledger-lsp does: the protocol type is decoded from the wire form, and the
+	// context carries which changes came without a range
+	raw := ChangeJSON(uri, version, changes)
 	var params protocol.DidChangeTextDocumentParams
-	if err := sjson.Unmarshal(ChangeJSON(uri, version, changes), &params); err != nil {
+	if err := sjson.Unmarshal(raw, &params); err != nil {
 		return fmt.Errorf("decode didChange: %w", err)
 	}
-	return h.S.DidChange(context.Background(), &params)
+	return h.S.DidChange(server.WithRangelessChanges(context.Background(), raw), &params)
 }
 
 func (h *Harness) ChangeConfiguration() error {
